@@ -2,6 +2,7 @@ from collections import OrderedDict
 import enum
 import json
 import logging
+import re
 from pathlib import Path, PosixPath, WindowsPath
 from typing import Any, AnyStr, Callable, IO, List, Optional, Union, cast
 from typing_extensions import Protocol, Type
@@ -161,6 +162,25 @@ class Dumper(yaml.SafeDumper):
             self.stream.write(self.best_line_break)
             self.stream.write(' ' * self._cur_indent)
 
+
+# The YAtiML loader reads floats by YAML 1.2 rules, while PyYAML decides which
+# strings must be quoted by YAML 1.1 rules. Make the dumper also quote strings
+# that look like a YAML 1.2 float (e.g. '1e5'), so that they are read back as
+# strings. This pattern must match the one in Loader.__patch_floats().
+Dumper.add_implicit_resolver(
+        'tag:yaml.org,2002:float',
+        re.compile(
+            r'^(?:'
+            r'[-+]?'
+            r'(?:'
+            r'  (?:[0-9]+[eE][-+]?[0-9]+'
+            r'  |[0-9]+\.([eE][-+]?[0-9]+)?'
+            r'  |[0-9]*\.[0-9]+([eE][-+]?[0-9]+)?'
+            r'  )'
+            r'|\.(?:inf|Inf|INF)'
+            r'|\.(?:nan|NaN|NAN)'
+            r'))\Z', re.X),
+        list('-+0123456789.'))
 
 Dumper.add_representer(OrderedDict, Dumper.represent_ordereddict)
 Dumper.add_representer(PosixPath, PathRepresenter())
